@@ -152,9 +152,9 @@ PROPS['C15'] = dict(
 PROPS['C11'] = dict(
     category='other',
     technique='Kani contracts on the record parsers: key/value split and comment stripping on listed text templates against an independent reference; value conversions on templates with every numeric field replaced by "any value or an error"; key tables enumerated exhaustively',
-    level_text='bounded stand-in for the text layer (listed templates for KeyValue::parse, trim_comment, each section record kind), with every numeric value / rejection covered per template; section key tables proved inverse (from_str(as_str(k)) == k) for every variant; numeric limit checks proved (Kani, full domain) under C01',
+    level_text='bounded stand-in for the text layer (listed templates for KeyValue::parse, trim_comment, each section record kind), with every numeric value / rejection covered per template; section key tables proved inverse (from_str(as_str(k)) == k) for every variant; numeric limit checks proved (Kani, full domain) under C01; proved (Kani, every f64 / f32 / i32 value, loop-free): the numeric limits of ParseNumber -- a value is rejected iff it lies outside [-limit, limit], the limits themselves are accepted (pn_* obligations, shared with C01)',
     level_note='assumed: std text->number conversion replaced by nondeterministic results; text shapes outside the templates not decided; "last valid occurrence wins" follows from the per-record contracts (each handler assigns its field or leaves the state unchanged) and is not run as a sequence',
-    verus=[], kani=['support.kc', 'c11_kv.kc', 'c11_sections.kc'],
+    verus=[], kani=['support.kc', 'c11_kv.kc', 'c11_sections.kc', 'parse_number.kc'],
     kani_functions=['src/util/key_value.rs :: impl KeyValue :: fn parse', 'src/util/str_ext.rs :: impl StrExt for str :: fn trim_comment',
                     'src/section/difficulty.rs :: impl DecodeBeatmap for Difficulty :: fn parse_difficulty', 'src/section/general/decode.rs :: impl DecodeBeatmap for General :: fn parse_general',
                     'src/section/events/decode.rs :: impl DecodeBeatmap for Events :: fn parse_events (break records)', 'src/section/colors/decode.rs :: impl DecodeBeatmap for Colors :: fn parse_colors', 'src/section/colors/mod.rs :: impl FromStr for Color'],
